@@ -1163,6 +1163,33 @@ func TestVerifC20Functions(t *testing.T) {
 			root.Close()
 		}
 		classes, nt := c20Classify(st)
+		// A log that is healthy at the first probe and stalls: the server keeps its directory handles open between
+		// probes, so the same handle is asked again once the unchanged checkpoint has become too old.
+		if rapid.IntRange(0, 39).Draw(rt, "probeAgainLater") == 23 {
+			l := c20LogSpec{Short: "stalls", Size: 77, Limit: 30 * c20Day, Age: 3200 * time.Millisecond}
+			os.MkdirAll(dirOf(l.Short), 0o755)
+			t0 := time.Now()
+			if err := c20MaterializeLog(l, dirOf(l.Short), t0); err != nil {
+				c19Inconclusive(rt, "materialize: %v", err)
+			}
+			root := c20OpenRoot(rt, dirOf(l.Short))
+			err1 := checkLog(root)
+			if time.Since(t0) > time.Second {
+				root.Close()
+				rt.Skip("the machine was too slow for a two-probe case")
+			}
+			if err1 != nil {
+				root.Close()
+				rt.Fatalf("checkLog of a log whose checkpoint is 3.2 s old failed: %v", err1)
+			}
+			time.Sleep(time.Until(t0.Add(2600 * time.Millisecond))) // the checkpoint is 5.8 s old now
+			err2 := checkLog(root)
+			root.Close()
+			if err2 == nil {
+				rt.Fatalf("checkLog reports a stalled log as healthy: its checkpoint was 3.2 s old at the first probe (healthy) and is %v old at the second probe through the same directory handle, which still answers success\nstate: %s", time.Since(t0)+l.Age, st)
+			}
+			classes = append(classes, "log-probed-again-after-it-stalled")
+		}
 		rec.Case(st.String(), nt, classes...)
 	})
 }
